@@ -394,6 +394,10 @@ def check_voxel_maps(ctx):
     fv = ctx.fn(f'{VOL}.voxel_to_frac_coords')
     ff = ctx.fn(f'{VOL}.frac_coords_to_voxel')
 
+    for q_ in (fv.qualname, ff.qualname, f'{VOL}.voxel_to_cart_coords'):
+        if q_ in ctx.p.functions:
+            kind_errors(ctx, 'R3', ctx.entry(q_), under(q_))
+
     def ret(f):
         it_ = ctx.entry(f.qualname)
         rs = [r.value for r in ast.walk(f.node) if isinstance(r, ast.Return) and r.value is not None]
